@@ -18,8 +18,8 @@ CLAIMED.update({
   note="Covers the deserializer and bit-field primitives only; command handlers' argument assertions and allocation sizes are not yet swept, and 'bounded time' is not a contract-level statement. Trusted: govc, solvers, helper stubs listed in evidence.",
   design="DESIGN.md §6 C13"),
  "C17": dict(
-  text="Deductive proof of the arithmetic the SCAN guarantee rests on, for every table size 2^4..2^31: hashToIndex places a key at Reverse32(hash)>>(32-k) inside the table (proved on the real function), cursor/index round trip, masking to a smaller table moves the normalised position back to the start of the containing bucket, growing splits bucket i into 2i,2i+1, and the successor of the last bucket is cursor 0 (bit-vector lemmas).",
-  note="The scan step function dictScanUnlocked itself (loop structure, match filtering) and the composition lemma over steps are not yet under contract; this check decides the placement/cursor arithmetic only. Trusted: govc, solvers.",
+  text="Deductive proof of one SCAN/HSCAN/SSCAN step on the real dictScanUnlocked for every table size 2^4..2^31 (ghost instrumentation of first/next bucket): the step starts at the bucket of the cursor masked to the table, visits buckets in strictly increasing index order, skips only empty buckets between visits (quantified inner-loop invariant), and returns the bit-reversed index of the next bucket (0 at the end). Plus the arithmetic the full-iteration guarantee rests on, for every table size 2^4..2^31: hashToIndex places a key at Reverse32(hash)>>(32-k) inside the table (proved on the real function), cursor/index round trip, masking to a smaller table moves the normalised position back to the start of the containing bucket, growing splits bucket i into 2i,2i+1, and the successor of the last bucket is cursor 0 (bit-vector lemmas).",
+  note="The composition lemma over steps (full iteration returns every stable element) is argued from the step contract and the lemmas, not machine-checked; the reply string built from the cursor and MATCH/TYPE filtering are not covered. Trusted: govc, solvers.",
   design="DESIGN.md §6 C17"),
 })
 CLAIMED.update({
@@ -47,6 +47,12 @@ CLAIMED.update({
   text="Deductive proof of the MULTI/EXEC state machine on the real handlers: MULTI opens an empty queue or (nested) fails leaving it untouched; DISCARD/UNWATCH/EXEC-without-MULTI behave as stated; EXEC on every path (no MULTI, a command rejected while queueing, a watched key changed, normal) leaves the connection in normal mode with an empty watch table and a cleared failure flag, releases the exclusive store lock, holds it across the whole replay loop, dispatches exactly one handler per queued command in queue order (ghost dispatch counter + loop invariant) and dispatches nothing when queueing had failed. Two defects (aborted EXEC stays in MULTI; rejected command does not abort) were found and repaired.",
   note="prepare()'s queueing branch and the per-command QUEUED reply are not yet under contract (the function drags in the whole argument parser); 'no other client interleaves' rests on the exclusive-lock obligations here plus C08's lock discipline; dispatchHandler's claim that handlers leave cmdQueueFailed alone is a stated (free) assumption.",
   design="DESIGN.md §6 C09"),
+})
+CLAIMED.update({
+ "C15": dict(
+  text="Deductive proof that a RESP2 connection only ever receives RESP2 types and that the RESP2 reply is the down-conversion of the RESP3-shaped result: resp3To2 (real code, recursive calls through the contract = structural induction) returns a value satisfying the inductively defined predicate 'only RESP2 types at every depth'; scalars unchanged, boolean -> integer 1/0, double / big number / verbatim text -> bulk string, null -> nil, blob error -> error, every aggregate -> array, with loop invariants over the element loops of the array/pairs/map/set converters; the dispatcher applies the conversion exactly when the connection's protocol is 2 and passes the handler's value through otherwise; HELLO sets the version of its own connection to 2 or 3 or leaves it unchanged. Three conversion defects and the HELLO range check were found and repaired.",
+  note="Order/element-wise equality with the RESP3 reply is proved only as far as the type structure (lengths of array/pairs/map results, per-type mapping); values held in Go maps (sets, attribute maps) are not modelled, and the attribute-map converter's clause is a stated assumption. That handlers never read respVersion is not yet checked. nativeValueToResp and the String methods are trusted contracts.",
+  design="DESIGN.md §6 C15"),
 })
 NOT_BUILT = {}
 ALL = ["C%02d" % i for i in range(1, 21)]
